@@ -7,7 +7,7 @@
    os.replace is assumed atomic; mkstemp names are assumed unique and never equal to a cache location. *)
 From Hpotk Require Import Store.Paths.
 From Coq Require Import String List Bool Arith.
-From Hpotk Require Import Base.Result Base.Str Store.Model Store.Proofs.
+From Hpotk Require Import Base.Result Base.Str Store.Model Store.Proofs Store.Republish.
 Import ListNotations.
 
 (* in EVERY reachable world - any number of loaders, any interleaving, any fault, any kill point, any
@@ -100,3 +100,31 @@ Proof. exact (fun t t' r r' rnd rnd' H H' => conj (final_name_injective t r t' r
 Theorem C07_names_type_directory : forall (s : string) (t : otype), class_type (classify s) = Some t ->
   exists b, s = (type_id t ++ "/" ++ b)%string /\ t < 3.
 Proof. exact classify_type. Qed.
+
+(* the remote re-publishes a tag with other content (the remote is a parameter of the model, so this is a change of
+   parameter): once the store was cleared and no load is in flight, EVERYTHING above holds again for the new remote - after
+   clear() for any new remote, after clear(type) for one that differs in that type only - and the next load asks the
+   remote again, stores exactly the NEW bytes and loads them.  A loader that already holds the old bytes in memory while
+   the tag is re-published is outside the statement. *)
+Theorem C07_republished_tag : forall (remote remote' : otype -> string -> bytes) (w : world) (l : loader),
+  Inv remote w -> quiescent w -> l_fault l = NoFault -> ~ In (tkey l) (map tkey (w_loaders w)) ->
+  let w1 := do_action remote w ClearAll in
+  let i := length (w_loaders w1) in
+  let w' := solo remote' (do_action remote' w1 (Spawn l)) i 8 in
+  nth_error (w_loaders w') i = Some (set_pc l (PDone (remote' (l_type l) (l_release l)))) /\
+  fget (w_fs w') (Final (l_type l) (l_release l)) = Some (remote' (l_type l) (l_release l)) /\
+  w_fetches w' = (l_type l, l_release l) :: w_fetches w /\
+  Inv remote' w'.
+Proof. exact republished_after_clear_all. Qed.
+
+Theorem C07_republished_tag_one_type : forall (remote remote' : otype -> string -> bytes) (w : world) (l : loader),
+  Inv remote w -> quiescent w -> l_fault l = NoFault -> ~ In (tkey l) (map tkey (w_loaders w)) ->
+  (forall t' r, t' <> l_type l -> remote' t' r = remote t' r) ->
+  let w1 := do_action remote w (ClearType (l_type l)) in
+  let i := length (w_loaders w1) in
+  let w' := solo remote' (do_action remote' w1 (Spawn l)) i 8 in
+  nth_error (w_loaders w') i = Some (set_pc l (PDone (remote' (l_type l) (l_release l)))) /\
+  fget (w_fs w') (Final (l_type l) (l_release l)) = Some (remote' (l_type l) (l_release l)) /\
+  w_fetches w' = (l_type l, l_release l) :: w_fetches w /\
+  Inv remote' w'.
+Proof. exact republished_after_clear_type. Qed.
